@@ -99,6 +99,20 @@ CLAIMED = {
         'gitignored_paths parsing, regex prefilter and search_in_module matching are not yet under contract; '
         '.gitignore FILE entries are not honoured by the code (reading question, not claimed).',
         'contract-based deductive verification (PyVC) + AST obligations', 'DESIGN.md 6/C19'),
+    'C11': (
+        'Deductive, symbolic-bounded over the property\'s own quantifier: CallDetails.calculate_index proved, for every '
+        'well-formed parameter list (kinds, names symbolic) and every call prefix of argument shapes (stars, keys, '
+        'flags symbolic), to return an index Python may bind the argument being typed to per the language-reference '
+        'binding rule (quick: <= 4 parameters x <= 3 arguments; thorough: <= 6 x <= 5, the full quantifier); '
+        'get_kind proved equal to Python\'s kind rule for parameter lists of <= 5 children; to_string\'s separator '
+        'placement ("/" after the last positional-only, "*" before the first keyword-only) for <= 4 parameters; '
+        'docstring() = signature + blank line + raw docstring proved for all strings.',
+        'Trusted: the binding spec is a transcription of the language reference (cross-check with '
+        'inspect.Signature.bind_partial is bounded/thorough), parso param nodes have 0..2 stars, param text '
+        '(to_string of one parameter) abstract; tree -> argument-shape extraction (_iter_arguments), bracket_start and '
+        'wrapper resolution are not yet under contract; "*iterable after keyword" is left unspecified.',
+        'contract-based deductive verification (PyVC symbolic-bounded VCs over concrete-length lists, z3/cvc5)',
+        'DESIGN.md 6/C11'),
 }
 
 NOT_APPLICABLE = {
